@@ -102,3 +102,107 @@ def c11(ctx):
     ctx.cov["rule"] = ("a replayed behaviour is non-trivial when it flushes at least once and uses >= 3 message kinds; "
                        "a free-running session is non-trivial when it carries payloads around the 64Ki/1Mi buffer boundaries")
     ctx.check_drift()
+
+
+# ---------------------------------------------------------------------- C19
+MESH_CFG = """SPECIFICATION %s
+CONSTANTS
+  N = %d
+  C = %d
+  CountFirst = %s
+%s
+CHECK_DEADLOCK FALSE
+"""
+
+
+@prop("C19")
+def c19(ctx):
+    thorough = ctx.tier == "thorough"
+    ctx.build()
+    ctx.assumptions += ["loopback TCP is available; parties are goroutines in one process with real sockets",
+                        "every party calls Join only after the leader's Create returned",
+                        "the accept queue of a listener is FIFO in connection order"]
+    # (M) all interleavings of the main threads and accept goroutines
+    mcs = [(3, 2), (4, 1)] + ([(4, 2), (5, 1), (3, 4)] if thorough else [])
+    for n, c in mcs:
+        ctx.tlc_expect_ok("Mesh", "Mesh_mc.cfg", name="mesh-mc-%d-%d" % (n, c), timeout=3000,
+                          cfg_text=MESH_CFG % ("Spec", n, c, "FALSE", "INVARIANT Safety\nPROPERTY Terminates"))
+    # the specification is sensitive to the order the fix establishes (vacuity guard)
+    r = ctx.tlc("Mesh", "Mesh_mc.cfg", name="mesh-mc-countfirst",
+                cfg_text=MESH_CFG % ("Spec", 3, 2, "TRUE", "INVARIANT Safety"))
+    if r["status"] != "invariant":
+        raise Broken("Mesh.tla no longer distinguishes count-before-add from add-before-count: %s" % r["status"])
+    ctx.cov["spec_detects_count_before_add"] = True
+    # (G) behaviours replayed through the gates on real sockets
+    gens = [(3, 2, 40), (4, 1, 30)] if not thorough else [(3, 2, 200), (4, 1, 150), (4, 2, 100), (5, 2, 60), (3, 4, 60), (2, 3, 20)]
+    allcases = []
+    for n, c, num in gens:
+        g = ctx.tlc("MeshGen", "Mesh_gen.cfg", mode="sim", workers=1, sim="num=%d" % num, depth=2000,
+                    name="mesh-gen-%d-%d" % (n, c), timeout=1500,
+                    cfg_text=MESH_CFG % ("GenSpec", n, c, "FALSE", "CONSTRAINT Emit"))
+        if g["status"] != "ok" or not g["cases"]:
+            raise Broken("MeshGen produced no behaviours: %s\n%s" % (g["status"], g["out"][-2000:]))
+        allcases += g["cases"]
+    cases = os.path.join(ctx.tmp, "c19cases.ndjson")
+    write_ndjson(cases, allcases)
+    res = os.path.join(ctx.tmp, "c19res.ndjson")
+    ctx.run_vh(["c19", "replay", cases, res], timeout=3000)
+    n = ctx.absorb(res)
+    ctx.cov["traces_validated_against_impl"] += n
+    ctx.cov["generated_behaviours"] = len(allcases)
+    # (T) random scheduler at the gates, trace validated by TLC
+    confs = [(3, 2, 6), (4, 2, 4)] if not thorough else [(3, 2, 30), (4, 3, 20), (5, 2, 20), (6, 2, 10), (6, 4, 6), (2, 4, 5)]
+    first_trace = None
+    for n, c, runs in confs:
+        d = os.path.join(ctx.tmp, "mt-%d-%d" % (n, c))
+        os.makedirs(d, exist_ok=True)
+        trace = os.path.join(d, "mesh_trace.ndjson")
+        rres = os.path.join(d, "res.ndjson")
+        ctx.run_vh(["c19", "random", trace, rres, runs, n, c], timeout=3000)
+        k = ctx.absorb(rres)
+        if ctx.violations:
+            break
+        t = ctx.tlc("MeshTrace", "MeshTrace.cfg", mode="trace", files=[trace], name="mesh-trace-%d-%d" % (n, c),
+                    timeout=1500, cfg_text=MESH_CFG % ("TraceSpec", n, c, "FALSE",
+                                                       "CONSTRAINT HighWater\nINVARIANT Safety\nPOSTCONDITION TraceAccepted"))
+        if t["status"] == "ok":
+            ctx.cov["traces_validated_against_impl"] += k
+        elif t["status"] == "invariant":
+            ctx.violation("trace:" + t.get("which", "Safety"),
+                          "a recorded run (n=%d c=%d) reaches a state violating Mesh.%s" % (n, c, t.get("which")), t["out"][-3000:])
+        elif t["status"] == "postcondition":
+            ln, line = tlc_reject_line(t["out"])
+            ctx.drift.append("MeshTrace (n=%d c=%d) rejects the recorded run at line %s: %s" % (n, c, ln, line))
+        else:
+            raise Broken("MeshTrace failed: %s\n%s" % (t["status"], t["out"][-3000:]))
+        if first_trace is None:
+            first_trace = (trace, n, c)
+    # free-running formations, 2..6 parties x 1..4 connections, random join order and gate delays
+    fres = os.path.join(ctx.tmp, "c19free.ndjson")
+    ctx.run_vh(["c19", "free", fres, 150 if thorough else 25], timeout=3000)
+    ctx.absorb(fres)
+    # binding self-test
+    if first_trace and not ctx.violations:
+        trace, n, c = first_trace
+        rows = read_ndjson(trace)
+        st = {}
+        for name in ("drop-event", "corrupt-field"):
+            r2 = [dict(r) for r in rows]
+            idx = [i for i, r in enumerate(r2) if r["ev"] == "go" and r["act"] == "AFirst"]
+            i = idx[len(idx) // 2]
+            if name == "drop-event":
+                del r2[i]
+            else:
+                r2[i]["a"] = (r2[i]["a"] + 1) % n
+            p = os.path.join(ctx.tmp, "selftest-" + name, "mesh_trace.ndjson")
+            os.makedirs(os.path.dirname(p), exist_ok=True)
+            write_ndjson(p, r2)
+            x = ctx.tlc("MeshTrace", "MeshTrace.cfg", mode="trace", files=[p], name="mesh-selftest-" + name,
+                        cfg_text=MESH_CFG % ("TraceSpec", n, c, "FALSE",
+                                             "CONSTRAINT HighWater\nINVARIANT Safety\nPOSTCONDITION TraceAccepted"))
+            st[name] = x["status"]
+            if x["status"] == "ok":
+                raise Broken("binding self-test: MeshTrace accepted a trace with a %s" % name)
+        ctx.cov["binding_selftest"] = st
+    ctx.cov["rule"] = "a formation is non-trivial when it has >= 3 parties (joiners dial each other, accept order matters)"
+    ctx.check_drift()
